@@ -37,6 +37,25 @@ def verylowPostP (t : Tree) : Bool :=
       sameParent t l.num (l.num - 1) || parentAllPunctP t l.num
     else true
 
+/-- "a constituent consisting only of punctuation": all its children are punctuation TOKENS.  (The implementation looks at
+    the `word` entry of every child, tokens and constituents alike; a constituent's `word` entry is not content - readers
+    put `#5xx` or nothing there - so the property is stated on tokens.  `consWordsClean` is the condition under which the
+    two readings coincide.) -/
+def parentAllPunctT (t : Tree) (i : Nat) : Bool :=
+  match parentOfLeaf i t with
+  | some p => p.kids.all fun k => k.isLeaf && isPunctWordP k
+  | none => false
+
+def verylowPostT (t : Tree) : Bool :=
+  (t.terminals.drop 1).all fun l =>
+    if isPunctWordP l then
+      sameParent t l.num (l.num - 1) || parentAllPunctT t l.num
+    else true
+
+/-- no constituent carries a `word` entry that is a punctuation mark -/
+def consWordsClean (t : Tree) : Bool :=
+  t.subtrees.all fun s => s.isLeaf || !(isPunctWordP s)
+
 def rootPostP (t : Tree) : Bool :=
   t.terminals.all fun l =>
     if isPunctWordP l then
